@@ -653,6 +653,33 @@ def fam_eq_array(tier, seed, extra=()):
     for a, b in nested:
         out.append(Case(f"arr/nested/{k}", f"({a} == {b}, {b} == {a})", (True, True)))
         k += 1
+    # arrays of MIXED content assembled from two parts, each part produced along its own route (so the stored element
+    # types of the parts - and of the concatenation - differ while the content is the same)
+    _NOTPAD = "(x: any) -> bool { return match x { p: struct{pad__: int} => false, => true, } }"
+
+    def _part(how, es):
+        body = ", ".join(es)
+        if how == "lit":
+            return "[" + body + "]"
+        if how == "part":
+            return "(([" + ", ".join(es + ["struct{pad__ := 0}"]) + "]~ \\ " + _NOTPAD + ").0)"
+        if how == "filter":      # (a slice cannot be used: its static type is the element type - observation D5)
+            return "([" + ", ".join(["struct{pad__ := 0}"] + es) + "]~ ? " + _NOTPAD + " $])"
+        return "([" + body + "]~ $])"
+    rnd = random.Random(97 + seed)
+    for content in ([["1", "2.5", "2.5"], ["1", '"s"'], ["2.5", "1", "1"]] + ([] if tier == "quick" else [["true", "1", "1.5"], ["1", "2", "2.5", '"s"']])):
+        routes = []
+        for cut in range(len(content) + 1):
+            for h1 in ("lit", "part", "filter", "collect"):
+                for h2 in ("lit", "part", "filter", "collect"):
+                    routes.append(f"({_part(h1, content[:cut])} + {_part(h2, content[cut:])})")
+        lit = "[" + ", ".join(content) + "]"
+        for i, r1 in enumerate(routes):
+            others = [lit] + rnd.sample(routes, 3 if tier == "quick" else 8)
+            for r2 in others:
+                out.append(Case(f"arr/mixed/{k}", f"f := (u: int) -> (bool, bool, bool) {{ x := {r1}; y := {r2}; return (x == y, y == x, x != y) }}; f(0)",
+                                (True, True, False), what=f"same mixed content {lit} along two routes"))
+                k += 1
     out.append(Case(f"arr/match/{k}", "match [1] + [2] { ([1, 2]) => 1, => 2, }", 1))
     out.append(Case(f"arr/match/{k + 1}", "match [1.5, 1, 2][1:] { ([1, 2]) => 1, => 2, }", 1))
     return out
@@ -1888,10 +1915,10 @@ class _ValGen:
         if isinstance(v, str):
             return '"' + v + '"'
         if isinstance(v, tuple):
-            return "(" + ", ".join(self.render(x, r.randint(0, 3)) for x in v) + ")"
+            return "(" + ", ".join(self.render(x, r.randint(0, 6)) for x in v) + ")"
         if isinstance(v, dict):
-            return "struct{" + ", ".join(f"{k} := {self.render(x, r.randint(0, 3))}" for k, x in v.items()) + "}"
-        elems = [self.render(x, r.randint(0, 3)) for x in v]
+            return "struct{" + ", ".join(f"{k} := {self.render(x, r.randint(0, 6))}" for k, x in v.items()) + "}"
+        elems = [self.render(x, r.randint(0, 6)) for x in v]
         lit = "[" + ", ".join(elems) + "]"
         if route == 1 and len(v) >= 1:      # concatenation
             k = r.randint(0, len(v))
@@ -1900,6 +1927,17 @@ class _ValGen:
             return "[" + ", ".join(['"pad"'] + elems + ["()"]) + f"][1:{len(v) + 1}]"
         if route == 3:                      # collect from an iterator
             return "(" + lit + "~ $])"
+        _NOTPAD = "(x: any) -> bool { return match x { p: struct{pad__: int} => false, => true, } }"
+        if route == 4 and len(v) >= 2:      # concatenation of three parts, grouped either way
+            i = r.randint(0, len(v) - 1)
+            j = r.randint(i, len(v))
+            a, b, c = ("[" + ", ".join(elems[:i]) + "]", "[" + ", ".join(elems[i:j]) + "]", "[" + ", ".join(elems[j:]) + "]")
+            return f"(({a} + {b}) + {c})" if r.random() < 0.5 else f"({a} + ({b} + {c}))"
+        if route == 5 and len(v) >= 1:      # a partition part (stored element type: the wide one) extended by concatenation
+            k = r.randint(0, len(v))
+            return ("(([" + ", ".join(elems[:k] + ["struct{pad__ := 0}"]) + "]~ \\ " + _NOTPAD + ").0 + [" + ", ".join(elems[k:]) + "])")
+        if route == 6:                      # filtered, then collected
+            return "([" + ", ".join(["struct{pad__ := 0}"] + elems) + "]~ ? " + _NOTPAD + " $])"
         return lit
 
 
@@ -1911,7 +1949,7 @@ def fam_eq_random(tier, seed, extra=()):
         g = _ValGen(random.Random(rnd.getrandbits(64)))
         a = g.value(2)
         b = a if rnd.random() < 0.5 else g.value(2)     # half of the pairs are the same value along two routes
-        ea, eb = g.render(a, rnd.randint(0, 3)), g.render(b, rnd.randint(0, 3))
+        ea, eb = g.render(a, rnd.randint(0, 6)), g.render(b, rnd.randint(0, 6))
         exp = (_ref_eq(a, b), not _ref_eq(a, b), _ref_eq(b, a))
         out.append(Case(f"eqr/{k}/rt", f"f := (u: int) -> (bool, bool, bool) {{ x := {ea}; y := {eb}; return (x == y, x != y, y == x) }}; f(0)", exp,
                         what=f"{a!r} vs {b!r}"))
